@@ -978,6 +978,18 @@ func (c *Ctx) checkGeneratorCtors(rule string) {
 		}
 		c.check(shares, rule, "Generator.NewSubGenerator", "shares the parent's known functions", f.Pos(),
 			"the sub-generator's knownFunctions is the parent's map", "a sub-generator does not share its parent's knownFunctions: a self call compiled inside cond / and / or does not know the function being compiled, so its lazy formals are compiled strict")
+		// if the generator records the function whose body it compiles (the tail self-call prepares its arguments for
+		// that function), a sub-generator compiles part of the same body and must carry the same record
+		if selfF := c.field("Generator", "self"); selfF != nil {
+			inherits := false
+			for _, st := range storesTo(f, selfF) {
+				if base, ok := loadOfField(st.Val, selfF); ok && len(f.Params) > 0 && base == ssa.Value(f.Params[0]) {
+					inherits = true
+				}
+			}
+			c.check(inherits, rule, "Generator.NewSubGenerator", "carries the function being compiled", f.Pos(),
+				"the sub-generator records the same function as its parent", "a sub-generator does not inherit the record of the function being compiled: a tail self-call inside cond / and / or / for falls back on the by-name table and prepares its arguments for whatever of that name was compiled last")
+		}
 	}
 	if f := c.mustFn(rule, "Generator.Reset"); f != nil {
 		okReset := !wholeStructStore(f).IsValid()
